@@ -34,6 +34,8 @@ KEY_INTNODE = 'C18-int-node-vs-float-node-comparison-raises'
 KEY_TWOLIT = 'C18-two-literal-comparison-untyped'
 KEY_NOUNIT = 'C18-unitless-expression-node-cannot-be-cast'
 KEY_FALSEEQ = 'C18-false-equality-node-left-without-value'
+KEY_UNITDEF = 'C18-custom-unit-definition-drops-unit-magnitude'
+KEY_NESTED = 'C18-function-nested-in-same-function-unclosed-parenthesis'
 
 _PAIRS = ['+ then *', '+ then /', '- then *', '- then /', '* then +', '* then -', '/ then +', '/ then -',
           '- then +', '- then -', '+ then -', '/ then *', '/ then /', '* then /']
@@ -227,6 +229,24 @@ def is_custom_clash(e, customs):
             and e.args[1] in customs)
 
 
+def same_function_nested(seq, inside=frozenset()):
+    """does some function call contain (at any depth of its argument texts) a call of the same function?"""
+    for x in seq[1][0::2]:
+        if x[0] == 'par':
+            if same_function_nested(x[1], inside):
+                return True
+        elif x[0] == 'fn':
+            if x[1] in inside:
+                return True
+            if any(same_function_nested(a, inside | {x[1]}) for a in x[2]):
+                return True
+    return False
+
+
+def is_unclosed(e):
+    return type(e) is Exception and len(e.args) >= 1 and e.args[0] == 'Unclosed parenthesis in'
+
+
 def is_nounit_cast(e):
     return (type(e) is Exception and len(e.args) >= 3 and e.args[0] == 'Could not convert raw value to type:'
             and type(e.args[2]).__name__ == 'Quantity')
@@ -267,6 +287,12 @@ def run_num(case, ctx):
         return outcome(skip='numerical reference undefined: ' + str(e.args[0]), monitors={})
     if case.get('mismatch') and not mism:
         return outcome(skip='mismatch generator produced a well-formed sum', monitors={})
+    twin_v = None
+    if customs and not mism and R.bad_customs(env.get('units')):
+        try:
+            twin_v = R.num_expected(seq, env, unit, twin=True)[0]
+        except Exception:
+            twin_v = None
     if mism:
         classes.add('num-dimension-mismatch')
     if customs:
@@ -280,6 +306,9 @@ def run_num(case, ctx):
             classes.add('num-dimensionless-result')
         elif len(unit) > 1 or unit[0][1] != 1:
             classes.add('num-compound-result-unit')
+    nested = same_function_nested(seq)
+    if nested:
+        classes.add('num-function-nested-in-same-function')
     devs, mon = [], {'solver_results_compared': 0, 'node_results_compared': 0}
     sample = dict(environment=text, expression=expr, requested_unit=ustr, expected='raise (dimension mismatch)' if mism else exp_v)
 
@@ -294,6 +323,8 @@ def run_num(case, ctx):
                 return
             if customs and is_custom_clash(res, customs):
                 devs.append(dev('numerical-expression-rejected', dict(via=via, exc=exc_sig(res), expr=expr), known=KEY_CUSTOM))
+            elif nested and is_unclosed(res):
+                devs.append(dev('numerical-expression-rejected', dict(via=via, exc=exc_sig(res), expr=expr), known=KEY_NESTED))
             elif via == 'node' and unit is None and is_nounit_cast(res):
                 devs.append(dev('numerical-expression-rejected', dict(via=via, exc=exc_sig(res), expr=expr), known=KEY_NOUNIT))
             else:
@@ -308,7 +339,12 @@ def run_num(case, ctx):
         except Exception:
             ok = False
         if not ok:
-            devs.append(dev('numerical-value-differs', dict(via=via, expr=expr, unit=ustr, expected=exp_v, observed=repr(res), env=text)))
+            try:
+                as_twin = twin_v is not None and close(float(res), twin_v, 1e-9, slack)
+            except Exception:
+                as_twin = False
+            devs.append(dev('numerical-value-differs', dict(via=via, expr=expr, unit=ustr, expected=exp_v, observed=repr(res), env=text),
+                            known=KEY_UNITDEF if as_twin else None))
 
     # (A) solver class on the parsed environment
     kind, envobj = parse_text(ctx, text)
@@ -392,8 +428,8 @@ def run_log(case, ctx):
     devs, mon = [], {'solver_results_compared': 0, 'node_results_compared': 0}
     sample = dict(environment=text, expression=expr, expected=good)
 
-    def twin_key():
-        return sorted(tw.used)[0] if len(tw.used) == 1 else None
+    def twin_keys():
+        return sorted(tw.used)
 
     def judge_exc(e, via):
         sample['observed_' + via] = exc_sig(e)
@@ -409,8 +445,9 @@ def run_log(case, ctx):
         if not isinstance(v, bool):
             devs.append(dev('logical-result-not-boolean', dict(via=via, expr=expr, observed=repr(v))))
         elif v != good:
-            if twin[0] == 'value' and twin_key() and (twin[1] == ('either',) or twin[1] == v):
-                devs.append(dev('logical-value-differs', dict(via=via, expr=expr, expected=good, observed=v), known=twin_key()))
+            if twin[0] == 'value' and twin_keys() and (twin[1] == ('either',) or twin[1] == v):
+                for key in twin_keys():
+                    devs.append(dev('logical-value-differs', dict(via=via, expr=expr, expected=good, observed=v), known=key))
             else:
                 devs.append(dev('logical-value-differs', dict(via=via, expr=expr, expected=good, observed=v, env=text)))
 
@@ -442,8 +479,9 @@ def run_log(case, ctx):
             # recorded: a bare numpy False coming straight from '==' leaves the node without a value
             if (got[0] == 'unreadable' and twin[0] == 'value' and twin[2] is True and twin[1] is False and good is False):
                 devs.append(dev('expression-node-unreadable', dict(expr=expr, why=got), known=KEY_FALSEEQ))
-            elif (got[0] == 'unreadable' and twin[0] == 'value' and twin[2] is True and twin[1] is False and twin_key()):
-                devs.append(dev('expression-node-unreadable', dict(expr=expr, why=got), known=twin_key()))
+            elif (got[0] == 'unreadable' and twin[0] == 'value' and twin[2] is True and twin[1] is False and twin_keys()):
+                for key in twin_keys() + [KEY_FALSEEQ]:
+                    devs.append(dev('expression-node-unreadable', dict(expr=expr, why=got), known=key))
             else:
                 devs.append(dev('expression-node-unreadable', dict(expr=expr, env=text, why=got)))
     nitems = sum(len(a[1]) for a in tree[1])
@@ -577,9 +615,11 @@ def pinned(ctx):
     return [
         (KEY_CUSTOM, dict(t='num', env=_env([a], [dict(name='ua', text='2', unit=[('m', 1)])]),
                           ast=('seq', [('ref', 'a'), '+', ('lit', '1', [('m', 1)])]), unit=[('cm', 1)])),
+        (KEY_NESTED, dict(t='num', env=_env([a]), ast=('seq', [('fn', 'sqrt', [('seq', [('fn', 'sqrt', [('seq', [('lit', '16', None)])])])]),
+                                                              '*', ('ref', 'a')]), unit=[('m', 1)])),
         (KEY_NOUNIT, dict(t='num', env=_env([a]), ast=('seq', [('lit', '1', None), '+', ('lit', '2', None)]), unit=None)),
         (KEY_NEGEQ, dict(t='log', env=_env([a]),
-                         ast=one(('not', ('par', one(('cmp', '==', ('ref', 'a'), ('lit', '300', [('cm', 1)]))))))))),
+                         ast=one(('not', ('par', one(('cmp', '==', ('ref', 'a'), ('lit', '300', [('cm', 1)])))))))),
         (KEY_INTLIT, dict(t='log', env=_env([i]), ast=one(('cmp', '==', ('ref', 'i'), ('lit', '3.0', None))))),
         (KEY_INTNODE, dict(t='log', env=_env([i, x]), ast=one(('cmp', '<', ('ref', 'x'), ('ref', 'i'))))),
         (KEY_TWOLIT, dict(t='log', env=_env([a]), ast=one(('cmp', '<', ('lit', '1', [('m', 1)]), ('lit', '200', [('cm', 1)]))))),
